@@ -19,8 +19,11 @@ impl Gumbel {
     /// # Errors
     /// Panics if `beta <= 0`.
     pub fn new(mu: f64, beta: f64) -> Self {
-        if beta <= 0. {
+        if !(beta > 0.) {
             panic!("Beta must be positive.");
+        }
+        if mu.is_nan() {
+            panic!("Mu must be a number.");
         }
         Gumbel {
             mu,
@@ -29,11 +32,14 @@ impl Gumbel {
         }
     }
     pub fn set_mu(&mut self, mu: f64) -> &mut Self {
+        if mu.is_nan() {
+            panic!("Mu must be a number.");
+        }
         self.mu = mu;
         self
     }
     pub fn set_beta(&mut self, beta: f64) -> &mut Self {
-        if beta <= 0. {
+        if !(beta > 0.) {
             panic!("Beta must be positive.");
         }
         self.beta = beta;
